@@ -154,6 +154,8 @@ fn alphabet_plain(name: &str) -> Alphabet {
         "w2" => build_alphabet("w2", n2, &[None], &[f(1.0), f(2.0), f(3.0)], false, false, false, false),
         "w3" => build_alphabet("w3", n3, &[None], &[f(1.0), f(2.0), f(3.0)], false, false, false, false),
         "w3s" => build_alphabet("w3s", n3, &[None], &[f(1.0), f(2.0)], false, false, false, false),
+        // an infinite weight next to a finite one: aggregates must stay +inf (never NaN)
+        "winf2" => build_alphabet("winf2", n2, &[None], &[f(1.0), f(f64::INFINITY)], false, false, false, false),
         "nan2" => build_alphabet("nan2", n2, &[None], &[NAN_BITS], false, true, false, false),
         "nan3" => build_alphabet("nan3", n3, &[None], &[NAN_BITS], false, false, false, false),
         // small product alphabet for the derived-graph property
